@@ -49,6 +49,18 @@ type State struct {
 	alloc  string
 	reach  string
 	defers []*deferRec
+	// A key that is absent from heap has the value it had at function entry (key@0) — unless everything was havocked
+	// on the way to this state (unknown callee, `modifies everything`): epoch > 0 then names the generation of unknown
+	// values such a key holds. A state merged from states with different histories resolves absent keys lazily from
+	// its predecessors (mergeOf / mergeConds).
+	epoch      int
+	mergeOf    []*State
+	mergeConds []string
+}
+
+type dryCached struct {
+	st  *State
+	key string
 }
 
 type deferRec struct {
@@ -60,7 +72,7 @@ type deferRec struct {
 }
 
 func (s *State) clone() *State {
-	n := &State{heap: make(map[string]string, len(s.heap)), alloc: s.alloc, reach: s.reach}
+	n := &State{heap: make(map[string]string, len(s.heap)), alloc: s.alloc, reach: s.reach, epoch: s.epoch, mergeOf: s.mergeOf, mergeConds: s.mergeConds}
 	for k, v := range s.heap {
 		n.heap[k] = v
 	}
@@ -131,6 +143,8 @@ type Enc struct {
 	preambleGhosts  bool
 	curFrameForSite *Frame
 	dynImpl         map[string]bool
+	qbound          []string // names of the quantifier variables whose body is being evaluated
+	dryCache        []dryCached
 	recGhost        map[string]bool
 }
 
@@ -149,6 +163,17 @@ func (e *Enc) assert(t string) {
 		return
 	}
 	e.emit("(assert " + t + ")")
+}
+
+// assertTyping: side facts (typing of loaded values). Produced while a quantifier body is being evaluated they may mention
+// the bound variable; such a fact cannot be asserted at top level and is dropped (typing facts only ever help a proof).
+func (e *Enc) assertTyping(t string) {
+	for _, q := range e.qbound {
+		if strings.Contains(t, q) {
+			return
+		}
+	}
+	e.assert(t)
 }
 
 // assume under the current reach condition of st
@@ -232,8 +257,45 @@ func (e *Enc) heapGet(st *State, key, sort string) string {
 		e.unsupportedf("heap key %s used at sorts %s and %s", key, s, sort)
 	}
 	e.heapSort[key] = sort
+	if st.mergeOf != nil {
+		// first use of this key after a join of different histories
+		var terms []string
+		same := true
+		for _, p := range st.mergeOf {
+			t := e.heapGet(p, key, sort)
+			terms = append(terms, t)
+			if t != terms[0] {
+				same = false
+			}
+		}
+		r := terms[0]
+		if !same {
+			r = e.fresh(key, sort)
+			for i, t := range terms {
+				e.assert(implies(st.mergeConds[i], eq(r, t)))
+			}
+		}
+		st.heap[key] = r
+		if e.dry > 0 {
+			// the names were declared inside a dry run and are rolled back with it
+			e.dryCache = append(e.dryCache, dryCached{st, key})
+		}
+		return r
+	}
+	if st.epoch > 0 {
+		// first use of this key after everything was havocked: an unknown value, not the entry value
+		return e.declConst(sym(fmt.Sprintf("%s@hv%d", key, st.epoch)), sort)
+	}
 	n := e.declConst(sym(key+"@0"), sort)
 	return n
+}
+
+// havocUnknown: every heap key that was never touched so far holds an unknown value from now on.
+func (e *Enc) havocUnknown(st *State) {
+	e.nfresh++
+	st.epoch = e.nfresh
+	st.mergeOf, st.mergeConds = nil, nil
+	e.writeLog["*"] = true
 }
 
 func (e *Enc) heapSet(st *State, key, sort, term string) {
@@ -283,9 +345,9 @@ func (e *Enc) loadLoc(st *State, l *Loc) *Val {
 		if lf.Sort == "Int" && lf.Path == "" && isRefLike(lf.T) {
 			a0 := e.declConst(sym(key+"@0"), sort)
 			if l.Kind == 'S' {
-				e.assert("(<= (select (select " + a0 + " " + l.Ref + ") " + l.Idx + ") alloc@0)")
+				e.assertTyping("(<= (select (select " + a0 + " " + l.Ref + ") " + l.Idx + ") alloc@0)")
 			} else {
-				e.assert("(<= (select " + a0 + " " + l.Ref + ") alloc@0)")
+				e.assertTyping("(<= (select " + a0 + " " + l.Ref + ") alloc@0)")
 			}
 		}
 	}
@@ -300,16 +362,16 @@ func (e *Enc) typeAssume(st *State, lf Leaf, t string) {
 	switch u := lf.T.Underlying().(type) {
 	case *types.Basic:
 		if lo, hi, ok := intRange(u); ok {
-			e.assert("(and (<= " + smtInt(lo) + " " + t + ") (<= " + t + " " + smtInt(hi) + "))")
+			e.assertTyping("(and (<= " + smtInt(lo) + " " + t + ") (<= " + t + " " + smtInt(hi) + "))")
 		}
 	case *types.Pointer, *types.Map:
 		if lf.Path == "" {
-			e.assert("(<= " + t + " " + st.alloc + ")")
+			e.assertTyping("(<= " + t + " " + st.alloc + ")")
 		}
 	case *types.Slice:
 		switch lf.Path {
 		case ".base":
-			e.assert("(<= " + t + " " + st.alloc + ")")
+			e.assertTyping("(<= " + t + " " + st.alloc + ")")
 		}
 	}
 }
@@ -670,6 +732,18 @@ func (e *Enc) mergeStates(hint string, sts []*State, conds []string) *State {
 	}
 	n := &State{heap: map[string]string{}}
 	n.reach = e.nameBool(hint+"!reach", or(conds...))
+	sameHist := true
+	for _, s := range sts {
+		if s.epoch != sts[0].epoch || s.mergeOf != nil {
+			sameHist = false
+		}
+	}
+	if sameHist {
+		n.epoch = sts[0].epoch
+	} else {
+		n.mergeOf = append([]*State(nil), sts...)
+		n.mergeConds = append([]string(nil), conds...)
+	}
 	keys := map[string]bool{}
 	for _, s := range sts {
 		for k := range s.heap {
